@@ -340,7 +340,7 @@ def run(ctx):
         sp = sl.space(name)
         rows = sl.pairwise_rows(sp, rs)
         if ctx.tier != "quick":
-            rows += [sl.random_row(sp, rs) for _ in range(1200)]
+            rows += [sl.random_row(sp, rs) for _ in range(2400)]
         ctx.count(f"rows:{name}", len(rows))
         for row in rows:
             idx += 1
